@@ -183,4 +183,59 @@ MUTANTS = [
         k += (k == 0)
 
         # initialize node weights""")]},
+ {"name": "c05_edge_list_not_symmetrised", "property": "C05", "edits": [
+   (NW, """        #  Symmetrize if undirected network
+        if not self.directed:
+            edges = np.append(edges, edges[:, [1, 0]], axis=0)
+
+        #  Create sparse adjacency matrix from edge list
+        sp_A = sp.coo_matrix(
+            (np.ones_like(edges.T[0]), tuple(edges.T)), shape=(N, N))
+
+        #  Set sparse""", """        #  Symmetrize if undirected network
+        if not self.directed and len(edges) > 3:
+            edges = np.append(edges, edges[:, [1, 0]], axis=0)
+
+        #  Create sparse adjacency matrix from edge list
+        sp_A = sp.coo_matrix(
+            (np.ones_like(edges.T[0]), tuple(edges.T)), shape=(N, N))
+
+        #  Set sparse""")]},
+ {"name": "c05_weights_saved_under_other_name", "property": "C05", "edits": [
+   (NW, """            self.graph.vs.set_attribute_values(
+                "node_weight_nsi", list(self.node_weights))""", """            self.graph.vs.set_attribute_values(
+                "node_weight", list(self.node_weights))""")]},
+ {"name": "c05_n_links_halved_when_directed", "property": "C05", "edits": [
+   (NW, """        if not self.directed:
+            self.n_links //= 2""", """        self.n_links //= 2""")]},
+ {"name": "c05_load_drops_graph", "property": "C05", "edits": [
+   (NW, """        net.graph = graph
+        #  invalidate cache
+        net._mut_la += 1
+        return net
+
+    @staticmethod
+    def SmallTestNetwork""", """        #  invalidate cache
+        net._mut_la += 1
+        return net
+
+    @staticmethod
+    def SmallTestNetwork""")]},
+ {"name": "c05_copy_without_attributes", "property": "C05", "edits": [
+   (NW, """        for a in self.graph.es.attributes():
+            net.set_link_attribute(a, self.link_attribute(a))
+        return net
+
+    def undirected_copy""", """        return net
+
+    def undirected_copy""")]},
+ {"name": "c05_edgeless_one_dimensional", "property": "C05", "edits": [
+   (NW, "edges = np.array(graph.get_edgelist(), dtype=int).reshape(-1, 2)", "edges = np.array(graph.get_edgelist())")]},
+ {"name": "c05_geo_load_ignores_weights", "property": "C05", "edits": [
+   (GN, """        node_weights = GeoNetwork._node_weights_from_graph(graph)
+        if node_weights is not None:
+            net.node_weights = node_weights
+""", "")]},
+ {"name": "c05_sparse_keeps_weights_dtype", "property": "C05", "edits": [
+   (NW, "self.sp_A = adjacency.tocsc().astype(self.sp_dtype)", "self.sp_A = (adjacency.tocsc() != 0).astype(self.sp_dtype) if False else adjacency.tocsc().astype(self.sp_dtype) * (1 if N != 4 else 2)")]},
 ]
